@@ -67,12 +67,12 @@ def runModel (sp : List PSpec) (ps : List Plugin) (ev : Nat) (rid : String) (fau
   | .ok items => { handled, err := "", items, isNil := !hasReply ev, after }
   | .error _ => { handled, err := "error", items := [], isNil := true, after }
 
-def cmp (what : String) (e : Expect) (o : RObs) : Option String :=
+def cmp (what : String) (e : Expect) (o : RObs) (skipItems : Bool := false) : Option String :=
   let names := o.log.map (·.p)
   let oerr := if o.res.err == "" then "" else "error"
   if e.handled != names then some s!"{what}: invocations: model {e.handled} impl {names}"
   else if e.err != oerr then some s!"{what}: model '{e.err}' impl '{o.res.err}' ({o.res.errtext})"
-  else if e.items != o.res.items then some s!"{what}: reply: model {e.items} impl {o.res.items}"
+  else if !skipItems && e.items != o.res.items then some s!"{what}: reply: model {e.items} impl {o.res.items}"
   else if e.isNil != o.res.isNil then some s!"{what}: reply nil: model {e.isNil} impl {o.res.isNil}"
   else none
 
@@ -126,7 +126,10 @@ def judgeFault (inp obs : Json) : Except String Verdict := do
   let isCorrupt := kind == "corrupt"
   let predicted : Option Class :=
     if transport then some .dropped else if clean then some .ok else if kind == "herr" then some .err else none
-  let oc := obsClass flt "fault" (!inNext)
+  -- corrupted bytes that decode to a different but well-formed reply: the plugin answered, its
+  -- contribution is whatever the bytes now say
+  let altered := isCorrupt && flt.res.err == "" && hasContrib && !contributed flt "fault" && inNext
+  let oc := if altered then Class.ok else obsClass flt "fault" (!inNext)
   let cls := predicted.getD oc
   let reachedObs := (names flt).contains me
   let reached : Bool :=
@@ -139,7 +142,7 @@ def judgeFault (inp obs : Json) : Except String Verdict := do
   let ps0 : List Plugin := sp.foldl (fun ps s => activate ps (mkPlugin s)) []
   -- a plugin closed before the request: its entry is marked closed, the call fails at once
   let e1 := runModel sp ps0 ev "fault" pos (faultyCall meSpec ev "fault" cls reached T late) T
-  let d1 := cmp "request under test" e1 flt
+  let d1 := cmp "request under test" e1 flt altered
   -- between the two requests
   let ps2 := if kind == "kill-after" then disconnect e1.after pos else e1.after
   let nextCls : Class :=
@@ -222,7 +225,7 @@ def judgeFault (inp obs : Json) : Except String Verdict := do
          excluded := excluded,
          cover := cov0 ++ ["outcome:" ++ tag ++ ":" ++ outcome, if fired then "fired" else "not-fired",
                            s!"retries:{getNatD obs "retries"}"] ++
-                  (if flt.wall ≥ T then ["waited-for-timeout"] else []),
+                  (if flt.wall ≥ T then ["waited-for-timeout"] else []) ++ (if altered then ["corrupt:altered-reply"] else []),
          nontrivial := kind != "none" && (fired || dir == ""),
          model := Json.mkObj [("class", cls.str), ("handled", Json.arr (e1.handled.map Json.str).toArray)] }
 
